@@ -93,16 +93,20 @@ CastImpl(w, kind, x) ==
         p == WriteRaw(v2, w)
     IN IF kind = "signed" THEN ReadSigned(p, w) ELSE p
 
-\* ---- bit-fields  (valuemask with the full-width fix: Mask(n))
-Mask(n) == IF Variant = "orig" THEN U(ShlU(1, n) - 1)
-           ELSE U(ShlU(U(ShlU(1, n - 1) - 1), 1) + 1)       \* (((1ULL<<(n-1))-1)<<1)|1 : defined for n = LL
+\* ---- bit-fields.  Mask(n) = (1ULL << n) - 1 is undefined in C for n = LL (x86 masks the
+\* shift count); the repaired code ("fixed") never evaluates it for n = LL: a full-width field of
+\* a long-long-sized type is handled as a regular field (convert_from_object / convert_to_object).
+Mask(n) == U(ShlU(1, n) - 1)
+FullWidth(bs) == Variant # "orig" /\ bs = LL
 BfWriteImpl(w, kind, sh, bs, u, v) ==
-    LET t == IF kind = "signed" \/ Variant = "orig" THEN AsLL(v) ELSE AsULLStrict(v) IN
+    IF FullWidth(bs) THEN
+        LET r == ConvFromObject(w, kind, v) IN IF r[1] = "ok" THEN <<"ok", r[2]>> ELSE <<"overflow", u>>
+    ELSE
+    LET t == AsLL(v) IN
     IF t[1] # "ok" THEN <<"overflow", u>>
     ELSE LET value == t[2]
              fmin == IF kind = "signed" THEN S(U(0 - S(ShlU(1, bs - 1)))) ELSE 0     \* wraps for bs = LL (-fno-strict-overflow)
-             fmax0 == IF kind = "signed" THEN S(U(S(ShlU(1, bs - 1)) - 1))
-                      ELSE IF Variant = "orig" THEN S(Mask(bs)) ELSE Mask(bs)
+             fmax0 == IF kind = "signed" THEN S(U(S(ShlU(1, bs - 1)) - 1)) ELSE S(Mask(bs))
              fmax == IF kind = "signed" /\ fmax0 = 0 THEN 1 ELSE fmax0
          IN IF value < fmin \/ value > fmax THEN <<"overflow", u>>
             ELSE LET rawmask == ShlU(Mask(bs), sh)
@@ -110,12 +114,13 @@ BfWriteImpl(w, kind, sh, bs, u, v) ==
                      nu == BitAnd(u, NotU(rawmask), LL) + BitAnd(rawvalue, rawmask, LL)
                  IN <<"ok", WriteRaw(nu, w)>>
 BfReadImpl(w, kind, sh, bs, u) ==
-    IF kind = "signed" THEN
+    IF FullWidth(bs) THEN (IF kind = "signed" THEN ReadSigned(u, w) ELSE u)
+    ELSE IF kind = "signed" THEN
         LET value == U(ReadSigned(u, w))
             valuemask == Mask(bs)
             sfs == ShlU(1, bs - 1)
             v2 == BitAnd(U((value \div P2(sh)) + sfs), valuemask, LL)
-        IN S(U(v2 - sfs))        \* computed in unsigned arithmetic, then converted
+        IN S(U(v2 - sfs))        \* (long long)value - (long long)shiftforsign, wrapping
     ELSE BitAnd(u \div P2(sh), Mask(bs), LL)
 
 \* ------------------------------------------------------------------ exhaustive comparison
